@@ -2,7 +2,7 @@
 
 Explicit enumeration of item sequences (all n-tuples over a 3-value shape-changing domain per stateful shape) x all block
 partitions of the written stream (compositions of n) x read modes (single-item, batch capacity 1..n+1 with reserved vector,
-batch with a pre-sized vector, fresh object per item) x Python write groupings (one list, generator, k calls for every
+batch with a pre-sized vector, fresh object per item) x C++ write groupings (batches of c items with empty batches before, between and after, binary and NDJSON writers) x Python write groupings (one list, generator, k calls for every
 composition with empty lists interleaved), binary and NDJSON, C++ and Python; the decoded output must equal the written
 sequence for every combination."""
 import itertools
@@ -94,6 +94,8 @@ def worker(chk, pkg, index):
                             paths += [[("cpp", "frb", 1)], [("py", "b2b", 1)], [("py", "b2b", 2)], [("py", "b2b", 3)],
                                       [("cpp", "b2n", 1), ("cpp", "n2b", 2)], [("py", "b2n", 1), ("py", "n2b", 1)]]
                             paths += [[("py", "b2b", 100 + mask)] for mask in range(1 << max(ln - 1, 0))]
+                            # the generated C++ writers driven directly: batches of c items, an empty batch before, between and after
+                            paths += [[("cpp", "ebb", c)] for c in caps] + [[("cpp", "ebn", 1), ("cpp", "n2b", 1)], [("cpp", "ebn", 2)]]
                         for c in caps:
                             paths.append([("cpp", "b2b", c)])
                             paths.append([("cpp", "pzb", c)])
@@ -136,7 +138,7 @@ def main(tier):
                 "20 stateful shapes (maps, records with optional/map/vector/union fields, vectors of maps/records, unions of containers, "
                 "dynamic and n-d arrays, nested optionals/vectors, trivially-copyable records) x every item sequence of length 0..n over a "
                 "3-value shape-changing domain x every block partition of the input x C++ read modes (CopyTo capacity 1..len+1, pre-sized "
-                "vector, fresh object per item) x Python write groupings (list, generator, k calls per composition with empty lists) x binary/"
+                "vector, fresh object per item) x C++ write groupings (batches of c items with empty batches before, between and after, binary and NDJSON writers) x Python write groupings (list, generator, k calls per composition with empty lists) x binary/"
                 "NDJSON; non-trivial = sequences with >= 2 items")
     packed = [(package(), [])]
     roundtrip.run_packages(chk, packed, worker, nproc=1, compile_threads=8)
